@@ -457,6 +457,17 @@ def main(run):
                                  "max_retransmit, established at start) in %s" % (depth, sweep_cfgs)}
         run.cov["evaluations"] += len(sl)
 
+    # thorough tier: the compiled proofs are re-checked by the independent checker
+    if not quick and not getattr(run, "replay", None):
+        rc, out = vlib.sh(["coqchk", "-silent", "-Q", ".", "LibcoapV", "-o", "LibcoapV.Properties_C08"],
+                          cwd=vlib.COQ, timeout=1800, check=False)
+        ok = rc == 0 and "Axioms: <none>" in out and "type-in-type: <none>" in out and \
+            "unsafe (co)fixpoints: <none>" in out and "positivity is assumed: <none>" in out
+        run.cov["coqchk"] = "ok: no axioms, nothing assumed" if ok else out[-400:]
+        if not ok:
+            run.violation("coqchk does not confirm Properties_C08 without assumptions", out[-4000:],
+                          tag="coqchk", no_input=True)
+
     # thorough tier: the same corpus + a slice of the generated histories on an ASan/UBSan build of
     # the library (objects instrumented, see DESIGN 5.4): same observations, no sanitizer report
     if not quick and not getattr(run, "replay", None):
